@@ -842,11 +842,94 @@ def _find_loc(c, P, obj, mode):
     return pub if pub else None
 
 
+def _intlike(x):
+    return isinstance(x, int) and not isinstance(x, bool) or (hasattr(x, "__index__") and not isinstance(x, (bytes, str)))
+
+
+def _as_tuple(v, want):
+    """`want` integers out of a tuple / list, or out of a small object that holds exactly that many integer fields"""
+    if isinstance(v, (tuple, list)):
+        return tuple(v) if len(v) == want and all(_intlike(x) for x in v) else None
+    names = []
+    for k in type(v).__mro__:
+        sl = k.__dict__.get("__slots__", ())
+        names += [sl] if isinstance(sl, str) else list(sl)
+    names += list(getattr(v, "__dict__", {}) or ())
+    try:
+        vals = [getattr(v, n) for n in names if hasattr(v, n)]
+    except Exception:                                              # noqa
+        return None
+    return tuple(vals) if len(vals) == want and all(_intlike(x) for x in vals) else None
+
+
+def _relation(c, t, xr, yr):
+    p = c.p
+    if c.fam == "edwards":
+        X, Y, Z, T = t
+        return bool(Z % p != 0 and (X - xr * Z) % p == 0 and (Y - yr * Z) % p == 0 and (T * Z - X * Y) % p == 0)
+    X, Y, Z = t
+    return bool(Z % p != 0 and (X - xr * Z * Z) % p == 0 and (Y - yr * Z * Z * Z) % p == 0)
+
+
+def _coord_accessor(c):
+    """How to read the internal coordinates of a point of this context.  The attribute the pinned source uses when it exists;
+    otherwise the refinement mapping is found by VALUE on a fresh Jacobian point: the attribute (a tuple, or a small object
+    with three / four integer fields, in some order) that stands for the sequential point with Z # 1 before scale() and with
+    Z = 1 after it.  None when nothing of the kind exists: the coordinates are then not observed (the results of the
+    operations still are)."""
+    if hasattr(c, "_coacc"):
+        return c._coacc
+    c._coacc = None
+    want = 4 if c.fam == "edwards" else 3
+    probe = c.make_q()
+    if hasattr(probe, c.pfx + "__coords"):
+        c._coacc = (c.pfx + "__coords", tuple(range(want)))
+        return c._coacc
+    import itertools
+    names = list(getattr(probe, "__dict__", {}) or ())
+    for k in type(probe).__mro__:
+        sl = k.__dict__.get("__slots__", ())
+        names += [sl] if isinstance(sl, str) else [("_%s%s" % (k.__name__.lstrip("_"), n) if n.startswith("__") and not n.endswith("__") else n) for n in sl]
+    found = []
+    for n in names:
+        t = _as_tuple(getattr(probe, n, None), want)
+        if t is None:
+            continue
+        for perm in itertools.permutations(range(want)):
+            tt = tuple(t[i] for i in perm)
+            zi = 2
+            if _relation(c, tt, c.qx, c.qy) and tt[zi] != 1:
+                found.append((n, perm))
+                break
+    if len(found) == 1:
+        n, perm = found[0]
+        try:
+            probe.scale()
+            t = _as_tuple(getattr(probe, n), want)
+            tt = tuple(t[i] for i in perm)
+            if _relation(c, tt, c.qx, c.qy) and tt[2] == 1:
+                c._coacc = (n, perm)
+        except Exception:                                          # noqa
+            pass
+    return c._coacc
+
+
 def _peek(c, obj, loc, mode):
     tab = getattr(obj, c.pfx + "__precompute")
     L = len(tab)
-    co = getattr(obj, c.pfx + "__coords")
     xr, yr, rtab = _ref(c, mode)
+    acc = _coord_accessor(c)
+    if acc is None:                 # coordinates kept in a form this observer does not read: nothing is said about them
+        try:
+            tab_ok = list(tab) == rtab[:L]
+        except Exception:                                          # noqa
+            tab_ok = False
+        return {"len": L, "ok": tab_ok, "same": loc is not None and tab is loc and L > 0, "z1": True, "co_ok": True}
+    co = getattr(obj, acc[0])
+    if not isinstance(co, (tuple, list)):
+        co = _as_tuple(co, len(acc[1])) or ()
+    if len(co) == len(acc[1]):
+        co = tuple(co[i] for i in acc[1])
     p = c.p
     try:
         if c.fam == "edwards":
@@ -1253,7 +1336,7 @@ def _lazy_part(rep, tier, wd, J):
         pt = not gname.endswith(("/intr", "/fail"))
         if pt and "/B=" not in gname and ("/table/" in gname or "/jtable/" in gname or "/ptable/" in gname) and not {0, max(g["table_len_seen_by_B"])} <= set(g["table_len_seen_by_B"]):
             vacuity.append("B never saw both the empty and the complete table in %s" % gname)
-        if pt and "/scale/" in gname and len(g["coords_form_seen_by_B"]) < 2:
+        if pt and "/scale/" in gname and len(g["coords_form_seen_by_B"]) < 2 and _coord_accessor(_ctx(gname.split("/")[0])) is not None:
             vacuity.append("B never saw both coordinate forms in %s" % gname)
         # (which callee does not matter: a construction that inverts once at the end is rarely stopped in inverse_mod)
         if "+callees" in gname and "/B=" not in gname and not (set(g["stopped_in"]) - {"", "-", "_maybe_precompute", "scale"}):
